@@ -1,5 +1,6 @@
 //! An atomic sampling reservoir.
 
+#[cfg(not(metrics_verif))]
 use std::{
     cell::UnsafeCell,
     sync::{
@@ -10,6 +11,16 @@ use std::{
         Mutex,
     },
 };
+#[cfg(metrics_verif)]
+use metrics::verif::{
+    atomic::{
+        AtomicBool, AtomicU64, AtomicUsize,
+        Ordering::{Acquire, Relaxed, Release},
+    },
+    sync::Mutex,
+};
+#[cfg(metrics_verif)]
+use std::cell::UnsafeCell;
 
 use rand::{rngs::OsRng, Rng, SeedableRng};
 use rand_xoshiro::Xoshiro256StarStar;
@@ -21,6 +32,10 @@ thread_local! {
 }
 
 fn fastrand(upper: usize) -> usize {
+    #[cfg(metrics_verif)]
+    if let Some(choice) = metrics::verif::rng_choice(upper) {
+        return choice;
+    }
     FAST_RNG.with(|rng| {
         // SAFETY: We know it's safe to take a mutable reference since we're getting a pointer to a thread-local value,
         // and the reference never outlives the closure executing on this thread.
